@@ -446,6 +446,19 @@ thread_exit_cb(int t)
 
 }  // namespace
 
+// source hook (only compiled into the library with -DCPP_UTILITY_VERIF): accesses to the shared non-atomic
+// list-node fields inside GetProtectedEpochs
+extern "C" void
+cpp_utility_verif_point(const char *)
+{
+  if (X == nullptr || !vsched::active()) return;
+  if (X->c->walk_points) {
+    vsched::harness_point();
+  } else {
+    X->out.excluded_known++;
+  }
+}
+
 namespace threadinterp
 {
 int
